@@ -445,7 +445,7 @@ func enumerate(alpha []sym, maxLen int, visit func([]sym)) {
 }
 
 func TestRun(t *testing.T) {
-	rec := vr.New("C18", "event strings over {recv, pong-current, pong-stale, tick- (now = last receive + period - eps), tick+ (+ period + eps), tick++ (+ 3 periods)}: all strings up to a bound (Monitor object: <=7/9; KeepAlive object: <=7/9 x retries 0..3; real udp connection: <=5/6 x retries 0..2 and plain inactivity; real tcp connection: <=4/5) plus PRNG strings of 30..100 events; periods 10 s .. 10 min, eps = period/10 (>= 1 s, the wall-clock bracket of a receive stamp is microseconds wide). Distinct = distinct (layer, retries, event string).")
+	rec := vr.New("C18", "event strings over {recv, pong-current, pong-stale, tick- (now = last receive + period - eps), tick+ (+ period + eps), tick++ (+ 3 periods)}: all strings up to a bound (Monitor object: <=7/9; KeepAlive object: <=7/9 x retries 0..3; real udp connection: <=5/6 x retries 0..2 and plain inactivity; real tcp connection: <=4/5) plus PRNG strings of 30..100 events; groups of R+2..R+6 connections created from ONE server/client configuration (one silent, one idle-but-answering, the rest PRNG strings) running concurrently; periods 10 s .. 10 min, eps = period/10 (>= 1 s, the wall-clock bracket of a receive stamp is microseconds wide). Distinct = distinct (layer, retries, event string).")
 	defer rec.Flush(true)
 	seed := vr.Seed()
 	periods := []time.Duration{10 * time.Second, time.Minute, 10 * time.Minute}
@@ -553,7 +553,8 @@ func TestRun(t *testing.T) {
 		}()
 	}
 	wg.Wait()
+	groups(rec, vr.Scale(40, 1500), seed)
 	rec.Assume("'closed only after more than the configured number of consecutive pings went unanswered' is read tolerantly: with R retries, closing at the (R+1)-th or the (R+2)-th consecutive failing tick is accepted, earlier is a violation, later is a violation")
 	rec.Assume("on a real connection a late pong for a superseded ping is itself a received message and therefore resets the count; the not-credited rule is checked on the KeepAlive object")
-	rec.Assume("server-side peer tables use the same monitor objects through the same options; they are exercised by C10/C09 workloads, not here")
+	rec.Assume("server-side wiring is covered by the group runs: one option applied once to a udp/dtls/tcp server configuration (and to client configurations), R+2..R+6 connections created from that configuration's monitor factory, each judged by the single-connection model while its siblings run concurrently")
 }
